@@ -39,9 +39,9 @@ CLASSES = [dict(t=1, name="SrcS", ver=0, d=1, uid=1, nv=1), dict(t=1, name="SrcS
            dict(t=4, name="KidK", ver=0, d=2, uid=11, nv=8, pname="TopT", pver=0),
            dict(t=4, name="KidK", ver=0, d=1, uid=12, nv=9, pname="TopT", pver=1)]
 TYPE = {1: "src", 2: "mid", 3: "top", 4: "kid"}
-OPT = {1: "opt_src", 2: "opt_mid", 3: "opt_top", 4: "opt_untracked", 5: "opt_shared", 6: "opt_kid"}
+OPT = {1: "opt_src", 2: "opt_mid", 3: "opt_top", 4: "opt_untracked", 5: "opt_shared", 6: "opt_kid", 7: "opt_mixed"}
 DEP = {1: None, 2: "src", 3: "mid", 4: "mid"}
-NT, NO = 4, 6
+NT, NO = 4, 7
 
 
 def classes_tla():
@@ -52,7 +52,8 @@ def classes_tla():
 
 
 def make_class(c, parents=None):
-    """Provenance of a row: (input provenance) * 1000 + NV * 100 + (own option as seen by compute) * 10 + shared option (0 if not taken)."""
+    """Provenance of a row: (input provenance) * 10000 + NV * 1000 + (own option as seen by compute) * 100 + shared option * 10 (0 if not
+    taken) + mixed option (the value where the plugin tracks it - mid -, 0 where it is untracked or not taken)."""
     t = c["t"]
     if t == 4:
         # a child plugin: inherits compute (which reads the *parent's* option name) from a TopT class of the given version
@@ -67,10 +68,13 @@ def make_class(c, parents=None):
         opts.append(strax.Option(OPT[5], default=1, track=True))
     if t == 2:
         opts.append(strax.Option(OPT[4], default=0, track=False))
+        opts.append(strax.Option(OPT[7], default=1, track=True))        # tracked here ...
+    if t == 3:
+        opts.append(strax.Option(OPT[7], default=1, track=False))       # ... untracked in the plugin registered after it
     if t == 1:
         def compute(self, chunk_i):
             r = np.zeros(1, H.ROWDT)
-            r["time"], r["endtime"], r["v"] = 1, 2, self.NV * 100 + self.config[optname] * 10 + self.config[OPT[5]]
+            r["time"], r["endtime"], r["v"] = 1, 2, self.NV * 1000 + self.config[optname] * 100 + self.config[OPT[5]] * 10
             return self.chunk(start=0, end=10, data=r)
         ns = dict(provides=("src",), depends_on=(), dtype=H.ROW, data_kind="src", compute=compute,
                   is_ready=lambda self, i: i < 1, source_finished=lambda self: True)
@@ -79,7 +83,8 @@ def make_class(c, parents=None):
             (x,) = kw.values()
             r = np.zeros(len(x), H.ROWDT)
             r["time"], r["endtime"] = x["time"], x["endtime"]
-            r["v"] = x["v"] * 1000 + self.NV * 100 + self.config[optname] * 10 + (self.config[OPT[5]] if shared else 0)
+            r["v"] = (x["v"] * 10000 + self.NV * 1000 + self.config[optname] * 100 + (self.config[OPT[5]] if shared else 0) * 10
+                      + (self.config[OPT[7]] if t == 2 else 0))
             return r
         ns = dict(provides=(TYPE[t],), depends_on=(DEP[t],), dtype=H.ROW, data_kind=TYPE[t], compute=compute)
     ns["__version__"] = str(c["ver"])
@@ -97,6 +102,16 @@ def make_classes():
             parents.setdefault((c["name"], c["ver"]), classes[c["uid"]])
     classes.update({c["uid"]: make_class(c, parents) for c in CLASSES if c["t"] == 4})
     return classes
+
+
+def decode(v):
+    """Provenance integer -> [[nv, own option, shared option, mixed option], ...] along the dependency chain."""
+    out = []
+    while v > 0:
+        g = v % 10000
+        out.insert(0, [g // 1000, g // 100 % 10, g // 10 % 10, g % 10])
+        v //= 10000
+    return out
 
 
 def run_history(hist):
@@ -136,13 +151,13 @@ def run_history(hist):
                     try:
                         if a == "get":
                             x = st.get_array("0", TYPE[t], progress_bar=False)
-                            ev["code"] = int(x["v"][0]) if len(x) == 1 else -len(x)
+                            ev["code"] = decode(int(x["v"][0])) if len(x) == 1 else [[9, 9, 9, len(x)]]
                         key = st.key_for("0", TYPE[t])
                         h = key.lineage_hash
                         ev["kid"] = kids.setdefault(h, len(kids) + 1)
                         lineages[h] = key.lineage
                     except Exception as e:  # noqa
-                        ev["code"] = -999
+                        ev["code"] = [[9, 9, 9, 9]]
                         ev["err"] = f"{type(e).__name__}: {e}"[:120]
             trace.append(ev)
         dirs = sorted(x for x in os.listdir(d) if not x.endswith("_temp"))
@@ -155,7 +170,7 @@ def job(hists):
     return [run_history(h) for h in hists]
 
 
-FUZZY_ACTIONS = ([("fz", t, on) for t in TYPE for on in (1, 0)] + [("fzo", o, on) for o in (1, 2, 3, 5, 6) for on in (1, 0)])
+FUZZY_ACTIONS = ([("fz", t, on) for t in TYPE for on in (1, 0)] + [("fzo", o, on) for o in (1, 2, 3, 5, 6, 7) for on in (1, 0)])
 ACTIONS = ([("set", o, v) for o in OPT for v in (0, 1, 2)] + [("reg", c["t"], c["uid"]) for c in CLASSES]
            + [("new", 0, 0)] + [("get", t, 0) for t in TYPE] + [("key", t, 0) for t in TYPE])
 
